@@ -2199,42 +2199,94 @@ def cmd_hostile(args):
 
     ncase = 0
     maxratio = 0.0
+    if args.get("isolate"):
+        # pin the culprit of a dead worker: one forked child per case, no monitors inside
+        import signal as _signal
+
+        for label, data in cases():
+            ncase += 1
+            with open(case_path, "wb") as f:
+                f.write(data)
+            pid = os.fork()
+            if pid == 0:
+                code = 0
+                try:
+                    try:
+                        load_module(case_path)
+                    except ImportError:
+                        code = 0
+                    except BaseException:
+                        code = 3
+                finally:
+                    os._exit(code)
+            _, st = os.waitpid(pid, 0)
+            acc.evaluations += 1
+            if os.WIFSIGNALED(st):
+                sig = os.WTERMSIG(st)
+                native = len(data) >= 2 and _struct.unpack("<H", data[:2])[0] == PYTHON_MAGIC_INT
+                cls = label.split(":v")[0] if label.startswith("adversarial") else label
+                acc.mismatch("C11|interpreter-crash:signal-%d|%s|%s" % (sig, "native-marshal-fast-path" if native else "xdis-unmarshaller", cls),
+                             host=vs(HOSTV), size=len(data), hex=C.hexs(data[:600]), klass=label)
+        acc.count("c11_isolated_cases", ncase)
+        return acc.result()
     for label, data in cases():
         ncase += 1
         with open(case_path, "wb") as f:
             f.write(data)
-        before = set(os.listdir(workdir))
-        obs.input = data
-        obs.events = []
-        obs.steps = 0
-        obs.budget = a_steps * len(data) + b_steps
-        trace_mem = label.startswith("adversarial") or ncase % 25 == 0
-        if trace_mem:
-            tracemalloc.start()
-        outcome = None
-        err = None
-        obs.active = True
-        try:
+        native_case = len(data) >= 2 and _struct.unpack("<H", data[:2])[0] == PYTHON_MAGIC_INT and label != "valid"
+
+        def one_case():
+            before = set(os.listdir(workdir))
+            obs.input = data
+            obs.events = []
+            obs.steps = 0
+            obs.budget = a_steps * len(data) + b_steps
+            trace_mem = label.startswith("adversarial") or ncase % 25 == 0
+            if trace_mem:
+                tracemalloc.start()
+            outcome = None
+            err = None
+            obs.active = True
             try:
-                r = load_module(case_path)
-                outcome = "tuple" if isinstance(r, tuple) and len(r) == 7 else "other-return:%s" % type(r).__name__
-            except ImportError:
-                outcome = "ImportError"
-            except StepBudget:
-                outcome = "step-budget"
-            except BaseException as e:
-                if isinstance(e, KeyboardInterrupt):
-                    raise
-                outcome = "escape"
-                err = (type(e).__name__, raise_site(sys.exc_info()[2], REPO), str(e)[:120])
-        finally:
-            obs.active = False
-        peak = None
-        if trace_mem:
-            peak = tracemalloc.get_traced_memory()[1]
-            tracemalloc.stop()
-        steps = obs.steps
-        after = set(os.listdir(workdir))
+                try:
+                    r = load_module(case_path)
+                    outcome = "tuple" if isinstance(r, tuple) and len(r) == 7 else "other-return:%s" % type(r).__name__
+                except ImportError:
+                    outcome = "ImportError"
+                except StepBudget:
+                    outcome = "step-budget"
+                except BaseException as e:
+                    if isinstance(e, KeyboardInterrupt):
+                        raise
+                    outcome = "escape"
+                    err = (type(e).__name__, raise_site(sys.exc_info()[2], REPO), str(e)[:120])
+            finally:
+                obs.active = False
+            peak = None
+            if trace_mem:
+                peak = tracemalloc.get_traced_memory()[1]
+                tracemalloc.stop()
+            after = set(os.listdir(workdir))
+            return {"outcome": outcome, "err": err, "peak": peak, "steps": obs.steps, "events": [list(e) for e in obs.events],
+                    "new": sorted(after - before)[:5], "gone": sorted(before - after)[:5]}
+
+        if native_case:
+            # the built-in marshal (fast path) can take the whole interpreter down on corrupt input:
+            # observe such cases from outside, in a forked child
+            rr, st = in_child2(one_case)
+            if rr is None:
+                acc.evaluations += 1
+                acc.count("outcome:interpreter-crash")
+                sig = os.WTERMSIG(st) if os.WIFSIGNALED(st) else -1
+                cls0 = label.split(":v")[0] if label.startswith("adversarial") else label
+                acc.mismatch("C11|interpreter-crash:signal-%d|native-marshal-fast-path|%s" % (sig, cls0), host=vs(HOSTV), size=len(data),
+                             hex=C.hexs(data[:600]), klass=label)
+                continue
+        else:
+            rr = one_case()
+        outcome, err, peak, steps = rr["outcome"], rr["err"], rr["peak"], rr["steps"]
+        events = rr["events"]
+        fs_new, fs_gone = rr["new"], rr["gone"]
         acc.evaluations += 1
         acc.count("outcome:" + outcome)
         cls = label.split(":v")[0] if label.startswith("adversarial") else label.split("-")[0] if label.startswith("nonbytecode:magic") else label
@@ -2255,10 +2307,10 @@ def cmd_hostile(args):
                 native = len(data) >= 2 and _struct.unpack("<H", data[:2])[0] == PYTHON_MAGIC_INT
                 acc.mismatch("C11|memory-bound-exceeded|%s|%s" % ("native-marshal-fast-path" if native else "xdis-unmarshaller", cls),
                              peak=peak, bound=c_mem * len(data) + d_mem, **wit)
-        for ev, info in obs.events:
+        for ev, info in events:
             acc.mismatch("C11|audit:%s" % ev, info=info, **wit)
-        if after != before:
-            acc.mismatch("C11|filesystem-changed", new=sorted(after - before)[:5], gone=sorted(before - after)[:5], **wit)
+        if fs_new or fs_gone:
+            acc.mismatch("C11|filesystem-changed", new=fs_new, gone=fs_gone, **wit)
         if outcome == "ImportError" and "RecursionError" in "":
             pass
         if len(acc.samples) < 4 and label not in ("valid",) and ncase % 7 == 0:
@@ -2686,6 +2738,29 @@ def in_child(fn):
     if st != 0 or not chunks[0]:
         return None
     return json.loads(chunks[0].decode("utf-8"))
+
+
+def in_child2(fn):
+    """Like in_child, but returns (result or None, wait status)."""
+    r, wfd = os.pipe()
+    pid = os.fork()
+    if pid == 0:
+        status = 0
+        try:
+            os.close(r)
+            data = json.dumps(fn()).encode("utf-8")
+            with os.fdopen(wfd, "wb") as f:
+                f.write(data)
+        except BaseException:
+            status = 1
+        os._exit(status)
+    os.close(wfd)
+    with os.fdopen(r, "rb") as f:
+        buf = f.read()
+    _, st = os.waitpid(pid, 0)
+    if st != 0 or not buf:
+        return None, st
+    return json.loads(buf.decode("utf-8")), st
 
 
 def cmd_history(args):
